@@ -276,6 +276,9 @@ protected:
 	FFSM2_CONSTEXPR(14)	bool applyRequest(const Transition& currentTransition,
 										  const StateID destination)							noexcept;
 
+	FFSM2_CONSTEXPR(14)	bool applyRequest(const Transition& currentTransition,
+										  const Transition& request)							noexcept;
+
 	FFSM2_CONSTEXPR(14)	bool cancelledByEntryGuards(const Transition& currentTransition,
 													const Transition& pendingTransition)		noexcept;
 
